@@ -5,7 +5,7 @@ V = os.path.dirname(os.path.dirname(os.path.abspath(__file__)))
 repo = os.environ.get("VERIF_REPO", "/repo")
 os.makedirs("/tmp/scratch", exist_ok=True)
 out = "/tmp/scratch/gv_%d.json" % os.getpid()
-cmd = [os.path.join(V, "bin", "govc"), "-repo", repo, "-verif", V, "-pkgs", sys.argv[1], "-funcs", sys.argv[2], "-timeout", sys.argv[3] if len(sys.argv) > 3 else "10", "-out", out] + sys.argv[4:]
+cmd = [os.environ.get("GOVC", os.path.join(V, "bin", "govc")), "-repo", repo, "-verif", V, "-pkgs", sys.argv[1], "-funcs", sys.argv[2], "-timeout", sys.argv[3] if len(sys.argv) > 3 else "10", "-out", out] + sys.argv[4:]
 subprocess.run(cmd)
 r = json.load(open(out)); os.remove(out)
 for fn in r["functions"]:
